@@ -25,6 +25,7 @@ func init() {
 		func(t *vcTrial) { vcRunC14(t, vc14Cfg{Target: "accept", Dials: 8, TimeoutUs: 2000000}) },
 		func(t *vcTrial) { vcRunC14(t, vc14Cfg{Target: "refuse", Dials: 4, TimeoutUs: 500000}) },
 		func(t *vcTrial) { vcRunC14(t, vc14Cfg{Target: "accept", Dials: 16, TimeoutUs: 1}) },
+		func(t *vcTrial) { vcRunC14Storm(t, 240000, 8) },
 	}
 }
 
@@ -41,6 +42,10 @@ var vc14Q = []int{vpDialOnWrite, vpDialOnHup, vpPollEvent, vpPollBatchEnd, vpDia
 
 func vcScenC14(t *vcTrial) {
 	r := t.R
+	if r.intn(40) == 0 {
+		vcRunC14Storm(t, r.rng(40000, 160000), r.rng(2, 12))
+		return
+	}
 	cfg := vc14Cfg{}
 	cfg.Target = []string{"accept", "accept", "accept6", "unix", "refuse", "refuse-unix", "missing-unix", "drop", "rst"}[r.intn(9)]
 	cfg.Dials = []int{1, 1, 2, 4, 16, 64}[r.intn(6)]
@@ -409,4 +414,106 @@ func vcRunC14(t *vcTrial, cfg vc14Cfg) {
 		cls = "fail"
 	}
 	t.Sig = fmt.Sprintf("%s|n=%d|to=%d|%s|real=%v", cfg.Target, vcMinInt(cfg.Dials, 17)/4, cfg.TimeoutUs, cls, t.Plan.Realised())
+}
+
+// vcRunC14Storm: refused dials towards closed ports of the kernel's ephemeral range. About
+// one in 10^4 of them the kernel picks the destination port as source port and the socket
+// connects to itself (TCP simultaneous open); dialTCP then drops that socket and dials
+// again. The redial path is reached only this way, so the storm is what exercises "a failed
+// dial leaves no descriptor behind" for it. The number of redials seen is reported; the
+// descriptor census is the oracle.
+func vcRunC14Storm(t *vcTrial, total, workers int) {
+	t.P("variant", "refused-dial-storm")
+	t.P("dials", total)
+	t.P("workers", workers)
+	lo, hi := 32768, 60999
+	if b, err := ioutil.ReadFile("/proc/sys/net/ipv4/ip_local_port_range"); err == nil {
+		fmt.Sscanf(string(b), "%d %d", &lo, &hi)
+	}
+	var sockets int64
+	vcAuditPtr.Store((*vcAudit)(nil))
+	vcFDCallback.Store(func(kind int, owner uintptr, fd int) {
+		if kind == vfdConn && owner != 0 {
+			atomic.AddInt64(&sockets, 1)
+		}
+	})
+	vcPointCallback.Store(func(id int, obj uintptr, arg int) {})
+	defer vcFDCallback.Store(func(kind int, owner uintptr, fd int) {})
+	vcSetPlan(nil)
+	before := vcOpenFDs()
+	var okDials, failed, both, neither, pans int64
+	var firstBad atomic.Value
+	var wg sync.WaitGroup
+	for w := 0; w < workers; w++ {
+		wg.Add(1)
+		rr := vfNewRng(t.R.next())
+		go func() {
+			defer wg.Done()
+			defer func() {
+				if p := recover(); p != nil {
+					atomic.AddInt64(&pans, 1)
+					firstBad.Store(fmt.Sprintf("panic: %v", p))
+				}
+			}()
+			for i := 0; i < total/workers; i++ {
+				addr := fmt.Sprintf("127.0.0.1:%d", rr.rng(lo, hi))
+				c, err := DialConnection("tcp", addr, time.Second)
+				isNil := vcIsNilConn(c)
+				switch {
+				case err == nil && isNil:
+					atomic.AddInt64(&neither, 1)
+				case err != nil && !isNil:
+					atomic.AddInt64(&both, 1)
+					c.Close()
+				case err != nil:
+					atomic.AddInt64(&failed, 1)
+				default:
+					// somebody else's listener, or a self-connect that survived both redials
+					atomic.AddInt64(&okDials, 1)
+					c.Close()
+				}
+			}
+		}()
+	}
+	done := make(chan struct{})
+	go func() { wg.Wait(); close(done) }()
+	select {
+	case <-done:
+	case <-time.After(5 * time.Minute):
+		if vcRunnerProgress(5, 5*time.Second) {
+			t.Violate("C14", "dial_stuck", "a storm of %d refused dials (1 s timeout each) has not finished after 5 minutes; %d failed, %d ok so far", total, atomic.LoadInt64(&failed), atomic.LoadInt64(&okDials))
+		} else {
+			t.Inconclusive("storm did not finish, canary without progress")
+		}
+		return
+	}
+	if pans > 0 {
+		t.Violate("C14", "panic", "a dial panicked: %v", firstBad.Load())
+	}
+	if both > 0 {
+		t.Violate("C14", "both", "%d of %d dials returned a connection AND an error", both, total)
+	}
+	if neither > 0 {
+		t.Violate("C14", "neither", "%d of %d dials returned neither a connection nor an error", neither, total)
+	}
+	var diff []string
+	for dl := time.Now().Add(3 * time.Second); ; {
+		diff = vcFDDiff(before, vcOpenFDs())
+		if len(diff) == 0 || time.Now().After(dl) {
+			break
+		}
+		time.Sleep(2 * time.Millisecond)
+	}
+	dials := okDials + failed + both + neither
+	redials := atomic.LoadInt64(&sockets) - dials
+	if len(diff) > 0 {
+		t.Violate("C14", "descriptor_leak", "after %d dials to closed ports (%d failed, %d ok and closed, %d sockets created, i.e. %d redials after a self-connect or EADDRNOTAVAIL) the process holds %d extra descriptor(s): %v", dials, failed, okDials, atomic.LoadInt64(&sockets), redials, len(diff), diff)
+	}
+	t.Stat("dials", int(dials))
+	t.Stat("dial_ok", int(okDials))
+	t.Stat("dial_failed", int(failed))
+	t.Stat("storm_dials", int(dials))
+	t.Stat("storm_redials_after_self_connect", int(redials))
+	t.Nontrivial = redials > 0
+	t.Sig = fmt.Sprintf("storm|redials=%v", redials > 0)
 }
